@@ -13,11 +13,11 @@ from sim.loop import VirtualLoop
 
 PROP = 'C19'
 HASH_SENSITIVE = False
-CONTAINERS = ['list', 'tuple', 'dict', 'Dict', 'dictattr', 'OrderedDict', 'UserDict', 'UserList', 'named']
+CONTAINERS = ['list', 'tuple', 'dict', 'Dict', 'dictattr', 'OrderedDict', 'UserDict', 'UserList', 'named', 'dictable']
 LEAF_KINDS = ['sleep', 'task', 'future', 'done', 'twostage', 'shared', 'nested', 'imm', 'custom', 'dep', 'gen']
 DELAYS = [0, 0, 1, 1, 2, 5, 3600]
 PLAIN = [None, 0, 1, 'x', 2.5, True, {'special': 'future_class'}, {'special': 'handle_class'}, {'special': 'nparray'}, {'special': 'nparray0'},
-         {'special': 'series'}, {'special': 'frame'}]
+         {'special': 'series'}, {'special': 'frame'}, {'special': 'range'}, {'special': 'deque'}, {'special': 'bytes'}]
 
 
 class _HandleClass:
@@ -40,6 +40,11 @@ def _plain(v):
                 import pandas as pd
                 _ARRAYS[k] = (np.array([1.0, 2.0, 3.0]) if k == 'nparray' else np.array([]) if k == 'nparray0' else pd.Series([1.0, 2.0]) if k == 'series'
                               else pd.DataFrame({'a': [1.0, 2.0]}))
+            return _ARRAYS[k]
+        if k in ('range', 'deque', 'bytes'):
+            # sequences that are neither list nor tuple: plain data, returned as they are
+            if k not in _ARRAYS:
+                _ARRAYS[k] = range(3) if k == 'range' else collections.deque([1, 2], maxlen=5) if k == 'deque' else b'ab'
             return _ARRAYS[k]
         return _a.Future if k == 'future_class' else _HandleClass
     return v
@@ -132,6 +137,17 @@ def generate(st):
             n = g.choice([511, 512, 513, 1024, 1025])
         if c == 'named' and not (1 <= n <= 8):
             c = 'dict'          # a record class has a handful of fields
+        if c == 'dictable':
+            # the library's own table: a mapping of column name -> list, all columns equally long; its cells may be awaitables
+            ncol, nrow = g.choice([1, 2, 2, 3]), g.choice([1, 2, 2, 3])
+            cols_ = []
+            for _ in range(ncol):
+                col_ = {'t': 'list', 'items': [build(0, False) for _ in range(nrow)], 'id': len(made)}
+                made.append({'id': col_['id'], 'ok': _multi_ok(col_, leaves)})
+                cols_.append(col_)
+            node = {'t': 'dictable', 'items': cols_, 'id': len(made), 'keys': g.sample(['a', 'b', 'c', 'd', 'e'], ncol)}
+            made.append({'id': node['id'], 'ok': False})
+            return node
         if cfg.get('records') and c in ('list', 'tuple') and 2 <= n <= 4 and g.random() < 0.5:
             # records: dicts with the same keys, not necessarily written in the same order
             kk = g.sample(['bid', 'ask', 'mid', 'a', 'b', 0], g.choice([2, 3]))
@@ -283,12 +299,14 @@ def _mk(node, items, keys=None):
         return _named(_keys(node))(dict(zip(ks, items)))
     if t in ('list', 'tuple', 'UserList'):
         return _ctor(t)(items)
+    if t == 'dictable':
+        return _ctor(t)(dict(zip(_keys(node), items)))
     return _ctor(t)(list(zip(_keys(node) if keys is None else keys, items)))
 
 
 def _ctor(name):
     import pyg_base
-    return {'list': list, 'tuple': tuple, 'dict': dict, 'Dict': pyg_base.Dict,
+    return {'list': list, 'tuple': tuple, 'dict': dict, 'Dict': pyg_base.Dict, 'dictable': pyg_base.dictable,
             'dictattr': pyg_base.dictattr, 'OrderedDict': collections.OrderedDict, 'UserDict': _Book, 'UserList': _Rows}[name]
 
 
@@ -329,6 +347,20 @@ def _multi_ok(node, leaves):
     return all(_multi_ok(x, leaves) for x in node['items'])
 
 
+def _fix_tables(node):
+    """a shrunk trace may have cut a table's columns to different lengths (or replaced one by something that is no list): such a
+    node is no table any more and is treated as a plain dict"""
+    if not isinstance(node, dict) or 'items' not in node:
+        return node
+    node = dict(node, items=[_fix_tables(x) for x in node['items']])
+    if node['t'] == 'dictable':
+        cols = node['items']
+        if not cols or any(c.get('t') != 'list' for c in cols) or len({len(c['items']) for c in cols}) != 1 or len(cols[0]['items']) == 0 \
+                or len(node.get('keys', [])) != len(cols) or not all(isinstance(k_, str) for k_ in node.get('keys', [])):
+            node['t'] = 'dict'
+    return node
+
+
 def _index_nodes(node, leaves, out):
     if node['t'] in ('plain', 'same'):
         return out
@@ -362,7 +394,7 @@ def execute(trace, ctx=None):
     from pyg_base import waiter
     res = Result()
     leaves = trace['leaves']
-    structure = trace['structure']
+    structure = _fix_tables(trace['structure'])
     tape = Tape(trace.get('tape', []))
     loop = VirtualLoop(tape, step_cap=10000, jitter=bool(trace['cfg'].get('jitter', True)))
     used = _leaf_ids(structure, leaves, [])
@@ -380,7 +412,8 @@ def execute(trace, ctx=None):
     slow = {f['leaf'] for f in faults if f['kind'] == 'slow_leaf'}
     outer = [f['at'] for f in faults if f['kind'] == 'outer_cancel']
     faulty = bool(faults)
-    rounds = 2 if (trace['cfg'].get('rounds') == 2 and not outer and not any(leaves[i]['kind'] == 'nested' for i in used)) else 1
+    rounds = 2 if (trace['cfg'].get('rounds') == 2 and not outer and not any(leaves[i]['kind'] == 'nested' for i in used)
+                   and not any(n_.get('t') == 'dictable' for n_ in nodes_by_id.values())) else 1
 
     started = collections.Counter()
     finished = []           # completion order of leaf bodies
